@@ -7,6 +7,10 @@ BASELINE_OFF = ("cd /repo && cargo nextest run --workspace --no-fail-fast --test
 
 # id -> (level, technique, design_ref, text, note)
 CHECKS = {
+ "C09": ("model_checking", "stateless exhaustive exploration of transport schedules (frame partitions, empty frames, Pending/wake) with a deviation bound, directly on the real S3Service::call; differential oracle plus lost-wake-up detection under a virtual clock",
+         "DESIGN §4 C09, §2 E2",
+         "For each of the four body kinds every schedule with at most k deviations from the default (k=2 quick, 3 thorough; a deviation is a cut point, an empty frame or a Pending-then-wake before any frame or before end-of-stream) is executed to completion on the implementation and compared with the single-frame run; a schedule that leaves the request Pending with no wake-up is detected deterministically through tokio's paused clock. Schedules are executions of the real code, so no model-code gap exists.",
+         "bodies are the four stated ones (16..892 bytes); more than k simultaneous deviations only in the all-1-byte schedules; hyper's wire parser is below the seam"),
  "C08": ("fault_enumeration", "exhaustive single-fault injection at every position of reference-encoded uploads under three framings, judged by a reference decoder at the backend's body stream, on the real S3Service::call",
          "DESIGN §4 C08",
          "Every single fault (bit flip, truncation at every offset, delete/duplicate/swap/splice/re-sign/resize of each chunk, trailing garbage, wrong or absent declared length) at every position of uploads of 0..66560 bytes in 0..3 chunks, each delivered as one frame, cut exactly at the fault, and in 1-byte frames. The oracle is a reference decoder run on the very same faulty bytes; what is judged is the byte string and terminal state of the stream the backend reads.",
